@@ -45,6 +45,7 @@ type Preset struct {
 	MaxPerEpochActivationChurnLimit                              uint64
 	SyncCommitteeSize                                            uint64
 	MaxValidatorsPerCommittee                                    uint64 // 0 = 32
+	AllEth1Creds                                                 bool   // every genesis validator has 0x01 credentials (default: every 4th)
 }
 
 func T4(forks [5]uint64) *Preset {
@@ -60,6 +61,14 @@ func TAgg(forks [5]uint64) *Preset {
 	p.Name, p.Validators, p.MaxCommitteesPerSlot, p.TargetCommitteeSize, p.SyncCommitteeSize = "TAgg", 128, 1, 32, 128
 	p.MinGenesisActive = 64
 	p.MaxValidatorsPerCommittee = 44 // committees of 32 stay below the limit (a bitlist at a limit that is a multiple of 8 is the recorded ztyp finding of C04)
+	return p
+}
+
+// TSync32: 32 sync committee seats for 16 validators — every validator holds two seats, in two different
+// subcommittees (C12: per-subnet membership; C01/C07: duplicate members in the aggregate).
+func TSync32(forks [5]uint64) *Preset {
+	p := T4(forks)
+	p.Name, p.SyncCommitteeSize = "TSync32", 32
 	return p
 }
 
